@@ -54,6 +54,7 @@ ROLES = {
         "seqs": {"A_cores": [("R_A", 0), ("M", 0), ("K", 0), ("R_A", 1)], "B_cores": [("R_B", 0), ("K", 0), ("N", 0), ("R_B", 1)],
                  "x_cores": [("rx", 0), ("M", 0), ("N", 0), ("rx", 1)], "z_cores": [("rz", 0), ("M", 0), ("N", 0), ("rz", 1)]},
         "ints": {"N": "N", "M": "M", "K": "K", "rx": "rx", "rz": "rz"},
+        "param_order": ["A_cores", "B_cores", "M", "N", "K"],
         "scalars": ("nrmsc",), "scalar_seqs": ("normA", "normb", "normx"),
         "floor": 24,
     },
@@ -110,17 +111,87 @@ def _sweep_loops(f: Func):
         if isinstance(n, ast.For) and isinstance(n.target, ast.Name) and isinstance(n.iter, ast.Call) and norm(n.iter.func) == "range":
             inner = [m for m in ast.walk(n) if m is not n and isinstance(m, ast.For)]
             uses_iface = any(isinstance(m, ast.Subscript) for m in ast.walk(n))
-            if uses_iface and "d" in {x.id for x in ast.walk(n.iter) if isinstance(x, ast.Name)}:
+            from ..rules import order_names
+            if uses_iface and order_names(f.node) & {x.id for x in ast.walk(n.iter) if isinstance(x, ast.Name)}:
                 loops.append(n)
     # keep the outermost position loops only (not the sweep loop itself, which ranges over nswp)
     return loops
 
 
+def infer_aliases(f: Func, roles):
+    """{role name in the table: actual name in the code}.  Roles are recognised structurally, so that renamed locals do not matter:
+       operands     - parameters whose `.cores` is read, in parameter order (operator, right-hand side);
+       parameter core / size lists (matrix product) - by parameter position;
+       trains       - `X[e] = tn.reshape(<...>, [R[e], <mode sizes>, R[e+1]])` defines (core list X, rank list R, mode lists);
+                      the solution train is the one that is returned / wrapped in TT(...), the other one is the residual train;
+       N            - the mode list of those reshapes (or the name bound to `<rhs>.N`)."""
+    alias = {}
+    params = f.params()
+    names_stored = {n.id for n in ast.walk(f.node) if isinstance(n, ast.Name) and isinstance(n.ctx, ast.Store)} | set(params)
+
+    def present(nm):
+        return nm in names_stored
+    # operands by parameter order
+    with_cores = [p for p in params if any(isinstance(n, ast.Attribute) and n.attr == "cores" and isinstance(n.value, ast.Name) and n.value.id == p
+                                          for n in ast.walk(f.node))]
+    init_guess = {p for p in with_cores if any(isinstance(n, ast.Compare) and norm(n.left) == p and isinstance(n.comparators[0], ast.Constant)
+                                               and n.comparators[0].value is None for n in ast.walk(f.node))}
+    with_cores = [p for p in with_cores if p not in init_guess]
+    for role, actual in zip(list(roles["objs"]), with_cores):
+        alias[role] = actual
+    # trains defined by reshape stores
+    trains = []
+    for n in ast.walk(f.node):
+        if isinstance(n, ast.Assign) and len(n.targets) == 1 and isinstance(n.targets[0], ast.Subscript) and isinstance(n.targets[0].value, ast.Name) \
+                and isinstance(n.value, ast.Call) and norm(n.value.func).endswith("reshape") and len(n.value.args) == 2 and isinstance(n.value.args[1], ast.List):
+            elts = n.value.args[1].elts
+            if len(elts) >= 3 and all(isinstance(e, ast.Subscript) and isinstance(e.value, ast.Name) for e in elts):
+                if elts[0].value.id == elts[-1].value.id:
+                    trains.append((n.targets[0].value.id, elts[0].value.id, [e.value.id for e in elts[1:-1]]))
+    returned = set()
+    for n in ast.walk(f.node):
+        if isinstance(n, ast.Return) and n.value is not None:
+            returned |= {x.id for x in ast.walk(n.value) if isinstance(x, ast.Name)}
+        if isinstance(n, ast.Call) and norm(n.func).endswith("TT"):
+            returned |= {x.id for a in n.args for x in ast.walk(a) if isinstance(x, ast.Name)}
+    seen = []
+    for t in trains:
+        if t[0] not in [x[0] for x in seen]:
+            seen.append(t)
+    sol = [t for t in seen if t[0] in returned]
+    res = [t for t in seen if t[0] not in returned]
+    if len(sol) == 1 and len(res) == 1:
+        table_trains = [k for k in roles["seqs"] if k.startswith(("x_", "z_"))]
+        if len(table_trains) == 2:
+            (xr, zr) = table_trains
+            alias[xr], alias[zr] = sol[0][0], res[0][0]
+            xfam = roles["seqs"][xr]
+            alias[xfam[0][0]] = sol[0][1]
+            alias[roles["seqs"][zr][0][0]] = res[0][1]
+            for (fam, _), actual in zip(xfam[1:-1], sol[0][2]):
+                alias[fam] = actual
+    # parameter lists of the matrix product, by position
+    plist = roles.get("param_order")
+    if plist:
+        for role, actual in zip(plist, params):
+            alias.setdefault(role, actual)
+    # operator rank list: name bound to <op>.R
+    for n in ast.walk(f.node):
+        if isinstance(n, ast.Assign) and len(n.targets) == 1 and isinstance(n.targets[0], ast.Name) and isinstance(n.value, ast.Attribute) \
+                and isinstance(n.value.value, ast.Name):
+            if n.value.attr == "R" and roles["objs"] and n.value.value.id == alias.get(list(roles["objs"])[0]):
+                alias.setdefault("rA", n.targets[0].id)
+            if n.value.attr == "N" and "N" not in alias:
+                alias["N"] = n.targets[0].id
+    return alias
+
+
 class _Pass:
     """one evaluation of the sweep bodies at a generic position k"""
 
-    def __init__(self, model: Model, f: Func, short: str, roles, ifaces, layout):
+    def __init__(self, model: Model, f: Func, short: str, roles, ifaces, layout, alias=None):
         self.model, self.f, self.short, self.roles, self.ifaces, self.layout = model, f, short, roles, ifaces, layout
+        self.alias = alias or {}
         self.facts = Facts()
         self.sp = Space(self.facts)
         self.it = Interp(model, self.sp, Trail(Explorer(limit=1), []), {})
@@ -168,22 +239,25 @@ class _Pass:
             v = self.it.eval_const_default(dnode, f)
             if isinstance(v, (VInt, VNone, VBool, VFloat, VStr)):
                 env[n] = v          # the default configuration (no band structure, no preconditioner, ...)
+        al = lambda nm: self.alias.get(nm, nm)
         for nm, spec in roles["objs"].items():
             attrs = {}
             for at, v in spec.items():
                 attrs[at] = self.mk_seq(f"{nm}.{at}", v) if isinstance(v, list) else self.mk_ints(f"{nm}.{at}", v)
-            env[nm] = VObj("operand", attrs)
+            env[al(nm)] = VObj("operand", attrs)
         for nm, tpl in roles["seqs"].items():
-            env[nm] = self.mk_seq(nm, tpl)
+            env[al(nm)] = self.mk_seq(nm, tpl)
         for nm, fam in roles["ints"].items():
-            env[nm] = self.mk_ints(nm, fam)
+            env[al(nm)] = self.mk_ints(nm, fam)
         for nm in roles["scalars"]:
-            env[nm] = VScalar(net.Coef.sym(nm))
+            env[al(nm)] = VScalar(net.Coef.sym(nm))
         for nm in roles["scalar_seqs"]:
-            env[nm] = VSeq(nm, self.d, lambda p, nm=nm: VScalar(net.Coef.sym(f"{nm}[.]")))
+            env[al(nm)] = VSeq(nm, self.d, lambda p, nm=nm: VScalar(net.Coef.sym(f"{nm}[.]")))
         for nm in self.ifaces:
             env[nm] = self.mk_seq(nm, self.iface_template(nm))
-        env["d"] = VInt(self.d)
+        from ..rules import order_names
+        for o in order_names(f.node) | {"d"}:
+            env[o] = VInt(self.d)
         env["dtype"] = VOpaque("dtype")
         env["device"] = VOpaque("device")
         return env
@@ -252,7 +326,8 @@ class _Pass:
                     idx = None
                 if not isinstance(idx, VInt):
                     continue
-                tpl = self.iface_template(arr) if arr in self.ifaces else self.roles["seqs"].get(arr)
+                inv = {v: k for k, v in self.alias.items()}
+                tpl = self.iface_template(arr) if arr in self.ifaces else self.roles["seqs"].get(inv.get(arr, arr))
                 if tpl is None:
                     continue
                 shp = val.block().shape()
@@ -292,8 +367,10 @@ def type_body(model: Model, short: str) -> list[Ob]:
         return [Ob("IFACE-TYPE", f"{short}:IFACE-TYPE:ifaces", ERROR, model.where(f), short,
                    f"expected four interface arrays initialised as [ones] + [None]*(d-1) + [ones], found {sorted(ifaces)}")]
     params = set(f.params())
+    alias = infer_aliases(f, roles)
     for nm in list(roles["objs"]) + list(roles["seqs"]) + list(roles["ints"]):
-        present = nm in params or any(isinstance(n, ast.Name) and n.id == nm and isinstance(n.ctx, ast.Store) for n in ast.walk(f.node))
+        actual = alias.get(nm, nm)
+        present = actual in params or any(isinstance(n, ast.Name) and n.id == actual and isinstance(n.ctx, ast.Store) for n in ast.walk(f.node))
         if not present:
             return [Ob("IFACE-TYPE", f"{short}:IFACE-TYPE:role:{nm}", ERROR, model.where(f), short,
                        f"the role table names `{nm}` (cores / rank list / operand), which {short} no longer defines")]
@@ -303,7 +380,7 @@ def type_body(model: Model, short: str) -> list[Ob]:
         return [Ob("IFACE-TYPE", f"{short}:IFACE-TYPE:loops", ERROR, model.where(f), short, "backward and forward position loops not found")]
 
     # ---- phase 1: infer the axis families of the interface arrays (majority over all sites that touch them)
-    p1 = _Pass(model, f, short, roles, ifaces, None).run(top)
+    p1 = _Pass(model, f, short, roles, ifaces, None, alias).run(top)
     votes = {}
     for a, b, where, text, ctx in p1.identifications():
         sa, sb = _split(a), _split(b)
@@ -332,7 +409,7 @@ def type_body(model: Model, short: str) -> list[Ob]:
         return obs
 
     # ---- phase 2: type every statement against the inferred layout
-    p2 = _Pass(model, f, short, roles, ifaces, layout).run(top)
+    p2 = _Pass(model, f, short, roles, ifaces, layout, alias).run(top)
     problems = {}
     for a, b, where, text, ctx in p2.identifications():
         if a == b:
